@@ -17,7 +17,8 @@ RULE = ("histories over a pool of (kind, parameters, seed) descriptors, kind in 
         "seeded operations must leave numpy's global state untouched; different seeds give different screens; unseeded "
         "calls differ. Non-trivial history: a reproduction separated from its reference by >=1 global-RNG perturbation and "
         ">=1 operation on another instance. Distinct = canonical JSON."
-        " Also: pristine interpreters run under different string-hash salts; unseeded screens from 4-16 workers forked after import are pairwise distinct; unseeded calls differ with the global state reset before each.")
+        " Also: pristine interpreters run under different string-hash salts; unseeded screens from 4-16 workers forked after import are pairwise distinct; unseeded calls differ with the global state reset before each."
+        " Law threads: seeded FFT screens (N 256, 512) from four threads at once vs one after the other.")
 ASSUMPTIONS = ["bit-identical = numpy.array_equal on float64 arrays (no tolerance)",
                "collision of two different seeds / two unseeded calls is treated as impossible (asserted as inequality)"]
 
